@@ -203,3 +203,36 @@ func verifHarness_C16_requestSizeGuard() {
 	}
 	vReach()
 }
+
+// C16 P-sys: every combination of flush triggers (count, frequency timer, none) and
+// Flush.MaxMessages with three messages for one partition, fast or slow broker: every message
+// is flushed without further input (Close completes, nothing is left buffered) and no request
+// carries more than MaxMessages messages.
+func verifHarness_C16_sysFlushTriggers() {
+	c := vProdCfg{n: 3, parts: 1, brokers: 1, faults: 0, faultMenu: vfKinds, delay: 1, retryMax: 1}
+	c.flushFrequency = vChoose("frequency", 2) == 1
+	c.flushMessages = []int{0, 2, 5}[vChoose("flushMessages", 3)]
+	c.flushMaxMessages = vChoose("maxMessages", 3)
+	c.holdFirst = vChoose("slowFirstResponse", 2) == 1
+	if c.flushMessages > 0 && !c.flushFrequency {
+		// a count trigger alone never fires for a smaller remainder: not a configuration the
+		// property promises anything about
+		vAssume(c.flushMessages <= 1)
+	}
+	if vTier() > 0 {
+		c.n, c.parts = 4, 2
+	}
+	c.class = vSprintf("freq=%v,messages=%d,max=%d,slow=%v", c.flushFrequency, c.flushMessages, c.flushMaxMessages, c.holdFirst)
+	r := vRunProducer(c)
+	r.assertC01()
+	r.assertC02()
+	for _, req := range r.cl.requests {
+		if c.flushMaxMessages > 0 {
+			vAssert(req.nMsgs <= c.flushMaxMessages, "no-request-carries-more-than-MaxMessages")
+		}
+	}
+	for _, e := range r.events {
+		vAssert(e.err == nil, "everything-delivered")
+	}
+	vReach()
+}
